@@ -68,6 +68,7 @@ func verifyFunctions(P *Program, L *Library, keys []string, opt solveOpts) []*Fu
 		t0 := time.Now()
 		x := newExec(P, L)
 		x.closures = map[string]*closureInfo{}
+		x.known = map[string]string{}
 		fr := &FuncResult{Key: k}
 		if err := x.verifyFunc(k); err != nil {
 			fr.Err = err.Error()
@@ -715,6 +716,7 @@ func cmdSweep(args []string) {
 		}
 		x := newExec(P, L)
 		x.closures = map[string]*closureInfo{}
+		x.known = map[string]string{}
 		e := x.verifyFunc(k)
 		total += len(x.obls)
 		if e != nil {
